@@ -69,6 +69,9 @@ let eval (op : string) (args : sx list) : sx list =
      | Some d -> [A "ok"; sx_of_bytes d]
      | None -> [A "none"])
   | "fasta_format", [d; p] -> [A "ok"; sx_of_bytes (fasta_format (bytes_of_sx d) (bytes_of_sx p))]
+  | "gb_to_fasta", [v; has; h; t; d; p] ->
+    let reg = if has = A "1" then Some (z_of_sx h, z_of_sx t) else None in
+    [A "ok"; sx_of_bytes (gb_to_fasta (bytes_of_sx v) reg (bytes_of_sx d) (bytes_of_sx p))]
   | "fasta_scan", [inp] ->
     sx_of_out (fun (recs, clean) ->
         [L (List.map (fun (d, p) -> L [sx_of_bytes d; sx_of_bytes p]) recs); sx_of_bool clean])
